@@ -402,3 +402,207 @@ Proof.
   rewrite (take_join data 0 40 (48 - 40) 40 48) by lia.
   reflexivity.
 Qed.
+
+(* v5: the header bytes are reproduced except that the leap bits are normalised *)
+Definition hdr5_wire (data : bytes) (h : hdr5) : bytes :=
+  [leap_to_bits (v_leap h) * 64 + HDR5_VERSION * 8 + v_mode h] ++ btake 47 (bdrop 1 data).
+
+Lemma hdr5_serialize_eq : forall data h w, wf_bytes data ->
+  hdr5_deserialize data = Ok h ->
+  hdr5_serialize w h = wr w (hdr5_wire data h) /\ 48 <= blen data.
+Proof.
+  intros data h w Hwf H. pose proof (hdr5_ok_len _ _ H) as Hlen. split; [|assumption].
+  unfold hdr5_wire. unfold hdr5_deserialize, HDR5_WIRE_LENGTH in H.
+  replace (blen data <? 48) with false in H by lia.
+  inv_bind H. destruct (negb _) in H; [discriminate|].
+  repeat inv_bind H. inversion H; subst h; clear H.
+  apply idx_chunk in E2. destruct E2 as (_ & C1 & _).
+  apply idx_chunk in E3. destruct E3 as (_ & C2 & _).
+  apply idx_chunk in E4. destruct E4 as (_ & C3 & _).
+  apply (field_chunk data 4 8 _ 4%nat Hwf ltac:(lia)) in E5. destruct E5 as (C4 & B4 & _).
+  apply (field_chunk data 8 12 _ 4%nat Hwf ltac:(lia)) in E6. destruct E6 as (C5 & B5 & _).
+  apply idx_chunk in E7. destruct E7 as (_ & C6 & _).
+  apply idx_chunk in E9. destruct E9 as (_ & C7 & _).
+  apply (field_chunk data 16 24 _ 8%nat Hwf ltac:(lia)) in E12. destruct E12 as (C10 & _).
+  apply (field_chunk data 24 32 _ 8%nat Hwf ltac:(lia)) in E13. destruct E13 as (C11 & _).
+  apply (field_chunk data 32 40 _ 8%nat Hwf ltac:(lia)) in E14. destruct E14 as (C12 & _).
+  apply (field_chunk data 40 48 _ 8%nat Hwf ltac:(lia)) in E15. destruct E15 as (C13 & _).
+  change (256 ^ (8 - 4)) with 4294967296 in B4. change (256 ^ (12 - 8)) with 4294967296 in B5.
+  (* timescale and flags are the bytes they were read from *)
+  unfold v5_timescale_from_bits in E8. destruct (_ && _) in E8; [|discriminate]. inversion E8; subst a8; clear E8.
+  apply range_inv in E10. destruct E10 as (_ & _ & _ & Hfb & Hfl).
+  assert (exists f0 f1, a10 = [f0; f1]) as (f0 & f1 & ->).
+  { destruct a10 as [|f0 [|f1 [|f2 r]]]; unfold blen in Hfl; cbn [List.length] in Hfl; try lia. eauto. }
+  cbn [nth] in E11. unfold v5_flags_from_bits in E11.
+  destruct (_ || _) eqn:Ef in E11; [discriminate|]. inversion E11; subst a11; clear E11.
+  assert (wf_bytes [f0; f1]) as Hwfb by (rewrite Hfb; apply wf_btake, wf_bdrop; assumption).
+  apply wf_cons_inv in Hwfb. destruct Hwfb as [Hf0 Hwfb]. apply wf_cons_inv in Hwfb. destruct Hwfb as [Hf1 _].
+  assert (f0 = 0 /\ f1 mod 8 = f1) as [-> Hf1'] by lia.
+  unfold hdr5_serialize. cbn [v_leap v_mode v_stratum v_poll v_precision v_timescale v_era v_flags v_root_delay
+                              v_root_disp v_server_cookie v_client_cookie v_recv_ts v_xmit_ts].
+  rewrite (to_bits_time32_rt _ B4), (to_bits_time32_rt _ B5). cbn [res_bind].
+  rewrite Hf1'.
+  rewrite !wr_app_k, wr_app. f_equal. rewrite <- !app_assoc. f_equal.
+  rewrite C4, C5, C10, C11, C12, C13, Hfb.
+  change [a2; a3; a4] with ([a2] ++ [a3] ++ [a4]). rewrite <- C1, <- C2, <- C3, <- C6, <- C7.
+  rewrite !app_assoc.
+  rewrite (take_join data 1 1 1 2 2) by lia.
+  rewrite (take_join data 1 2 1 3 3) by lia.
+  rewrite (take_join data 1 3 (8 - 4) 4 7) by lia.
+  rewrite (take_join data 1 7 (12 - 8) 8 11) by lia.
+  rewrite (take_join data 1 11 1 12 12) by lia.
+  rewrite (take_join data 1 12 1 13 13) by lia.
+  rewrite (take_join data 1 13 (16 - 14) 14 15) by lia.
+  rewrite (take_join data 1 15 (24 - 16) 16 23) by lia.
+  rewrite (take_join data 1 23 (32 - 24) 24 31) by lia.
+  rewrite (take_join data 1 31 (40 - 32) 32 39) by lia.
+  rewrite (take_join data 1 39 (48 - 40) 40 47) by lia.
+  reflexivity.
+Qed.
+
+(* ---- MAC ---- *)
+Definition mac_wire (m : option mac) : bytes :=
+  match m with None => [] | Some m => to_be 4 (keyid m) ++ macbytes m end.
+
+Lemma mac_deserialize_inv : forall r m, wf_bytes r -> mac_deserialize r = Ok m ->
+  mac_wire (Some m) = r /\ 4 <= blen r <= 24 /\ 0 <= keyid m < 4294967296 /\ wf_bytes (macbytes m).
+Proof.
+  intros r m Hwf H. unfold mac_deserialize, MAC_MINIMUM_SIZE, MAC_MAXIMUM_SIZE in H.
+  destruct (_ || _) eqn:E; [discriminate|]. repeat inv_bind H. inversion H; subst m; clear H.
+  apply range_inv in E0. destruct E0 as (_ & _ & _ & Ha & Hla).
+  apply range_inv in E1. destruct E1 as (_ & _ & _ & Hb & Hlb).
+  assert (wf_bytes a) as Hwa by (subst a; apply wf_btake, wf_bdrop; assumption).
+  assert (wf_bytes a0) as Hwb by (subst a0; apply wf_btake, wf_bdrop; assumption).
+  pose proof (be_bound a Hwa) as Hbd. rewrite Hla in Hbd. change (256 ^ (4 - 0)) with 4294967296 in Hbd.
+  cbn [mac_wire keyid macbytes]. repeat split; try lia; try assumption.
+  replace 4%nat with (List.length a) by (unfold blen in Hla; lia).
+  rewrite to_be_be by assumption. rewrite Ha, Hb.
+  rewrite (take_join r 0 (4 - 0) (blen r - 4) 4 (blen r)) by lia.
+  rewrite bdrop_0. apply btake_all.
+Qed.
+
+Lemma mac_serialize_eq : forall w m, mac_serialize w m = wr w (mac_wire (Some m)).
+Proof. intros; unfold mac_serialize, mac_wire. apply wr_app. Qed.
+
+Lemma wr_ok : forall w b, blen (w_out w) + blen b <= w_cap w ->
+  wr w b = Ok (mkW (w_out w ++ b) (w_cap w)).
+Proof. intros w b H. unfold wr. replace (_ >? _) with false by lia. reflexivity. Qed.
+
+(* ---- what with_fields accepts without keys ---- *)
+Definition body_ok (v5 : bool) (d : efdata) (m : option mac) (tail : bytes) : Prop :=
+  authenticated d = [] /\ encrypted d = [] /\ Forall (field_ok v5) (untrusted d) /\
+  mac_wire m = tail /\ blen tail <= ef_cutoff v5 /\ wf_bytes tail.
+
+Lemma with_fields_accept : forall dec data h v5 p c, C24_REPAIR = 1 -> wf_bytes data -> 48 <= blen data ->
+  with_fields dec NoKeys data h 48 v5 = Ok (Accept p c) ->
+  c = None /\ p_header p = h /\ exists tail, body_ok v5 (p_ef p) (p_mac p) tail.
+Proof.
+  intros dec data h v5 p c Hrep Hwf Hlen H. unfold with_fields in H.
+  inv_bind H. destruct a as [[[d remaining] ck] valid]. inv_bind H.
+  destruct valid; [|discriminate]. inversion H; subst a c; clear H.
+  unfold efdata_deserialize in E. rewrite range_ok in E by lia. cbn [res_bind] in E.
+  set (buf := btake (blen data - 48) (bdrop 48 data)) in *.
+  assert (blen buf = blen data - 48) as Hb.
+  { unfold buf. rewrite blen_btake; [reflexivity|]. rewrite blen_bdrop; lia. }
+  assert (wf_bytes buf) as Hwb by (apply wf_btake, wf_bdrop; assumption).
+  inv_bind E. inv_bind E. inversion E as [[Hd Hr0 Hck Hv]]; subst d remaining ck; clear E.
+  pose proof (blen_nonneg buf) as Hbn.
+  eapply (noks_loop dec data 48 v5 buf Hrep Hwb) in E1;
+    [|repeat split; try reflexivity; intros; constructor|reflexivity|lia].
+  destruct E1 as ((Ha & He & Hc & Hf) & Hsz & Hcut).
+  apply range_inv in E2. destruct E2 as (_ & _ & _ & Hr & Hrl).
+  assert (wf_bytes a0) as Hwr by (subst a0; apply wf_btake, wf_bdrop; assumption).
+  rewrite blen_bdrop in Hcut by lia.
+  split; [exact Hc|].
+  unfold construct_packet in E0. destruct a0 as [|x r].
+  - inversion E0; subst p; clear E0. cbn [p_header p_ef p_mac]. split; [reflexivity|].
+    exists []. repeat split; try assumption; try (apply Hf; exact Hv).
+    + change (blen []) with 0. unfold ef_cutoff, EF_CUTOFF_V5, MAC_MAXIMUM_SIZE. destruct v5; lia.
+  - inv_bind E0. inversion E0; subst p; clear E0. cbn [p_header p_ef p_mac]. split; [reflexivity|].
+    exists (x :: r). apply mac_deserialize_inv in E; [|assumption]. destruct E as (Hw & _).
+    repeat split; try assumption; try (apply Hf; exact Hv). lia.
+Qed.
+
+Lemma wr_nil_room : forall w, blen (w_out w) <= w_cap w -> wr w [] = Ok w.
+Proof.
+  intros w H. rewrite wr_ok by (change (blen []) with 0; lia). rewrite app_nil_r. destruct w; reflexivity.
+Qed.
+
+Lemma efdata_serialize_eq : forall enc v5 d w, authenticated d = [] -> encrypted d = [] ->
+  Forall (field_ok v5) (untrusted d) -> blen (w_out w) <= w_cap w ->
+  efdata_serialize enc None w d v5 = wr w (fields_wire v5 (untrusted d)).
+Proof.
+  intros enc v5 d w Ha He Hf Hw. unfold efdata_serialize. rewrite Ha, He. cbn [res_bind].
+  destruct (untrusted d) eqn:Eu.
+  - cbn [ef_serialize_untrusted fields_wire]. symmetry. apply wr_nil_room; assumption.
+  - apply ef_serialize_untrusted_eq; [assumption|discriminate].
+Qed.
+
+Lemma serialize_parts : forall enc cap p hw fw mw,
+  (forall w, match p_header p with
+             | HV3 h => hdr34_serialize w h 3 | HV4 h => hdr34_serialize w h 4 | HV5 h => hdr5_serialize w h
+             end = wr w hw) ->
+  (forall w, blen (w_out w) <= w_cap w ->
+             match p_header p with
+             | HV3 _ => Ok w
+             | HV4 _ => efdata_serialize enc None w (p_ef p) false
+             | HV5 _ => efdata_serialize enc None w (p_ef p) true
+             end = wr w fw) ->
+  mac_wire (p_mac p) = mw ->
+  blen (hw ++ fw ++ mw) <= cap ->
+  serialize enc None cap None p = Ok (hw ++ fw ++ mw).
+Proof.
+  intros enc cap p hw fw mw Hh Hf Hm Hcap. unfold serialize.
+  rewrite !blen_app in Hcap.
+  pose proof (blen_nonneg hw). pose proof (blen_nonneg fw). pose proof (blen_nonneg mw).
+  rewrite Hh. rewrite wr_ok by (cbn [w_out w_cap]; change (blen []) with 0; lia).
+  cbn [res_bind w_out w_cap app].
+  rewrite Hf by (cbn [w_out w_cap]; lia). rewrite wr_ok by (cbn [w_out w_cap]; lia).
+  cbn [res_bind w_out w_cap].
+  assert ((do w <- match p_mac p with Some m => mac_serialize (mkW (hw ++ fw) cap) m | None => Ok (mkW (hw ++ fw) cap) end;
+           Ok w) = Ok (mkW (hw ++ fw ++ mw) cap)) as Hmac.
+  { destruct (p_mac p) as [m|]; cbn [mac_wire] in Hm.
+    - rewrite mac_serialize_eq. cbn [mac_wire]. rewrite Hm.
+      rewrite wr_ok by (cbn [w_out w_cap]; rewrite blen_app; lia). cbn [res_bind w_out w_cap].
+      rewrite <- app_assoc. reflexivity.
+    - subst mw. rewrite app_nil_r. reflexivity. }
+  destruct (p_mac p) as [m|]; cbn [res_bind] in Hmac |- *.
+  - destruct (mac_serialize _ m) as [w|e|s]; cbn [res_bind] in Hmac |- *; inversion Hmac; subst.
+    destruct (p_header p); reflexivity.
+  - injection Hmac as Hq. destruct (p_header p); cbn [res_bind w_out]; rewrite <- Hq; reflexivity.
+Qed.
+
+Theorem reencode_ok : C24_REPAIR = 1 -> forall dec data p c, wf_bytes data ->
+  deserialize dec NoKeys data = Ok (Accept p c) ->
+  c = None /\ exists b1, forall enc cap, blen b1 <= cap -> serialize enc None cap None p = Ok b1.
+Proof.
+  intros Hrep dec data p c Hwf H. unfold deserialize in H.
+  destruct data as [|x data']; [discriminate|]. remember (x :: data') as data eqn:Ed. clear Ed.
+  inv_bind H. rename a into d0. rename E into Hd0.
+  destruct (_ =? 3) eqn:V3.
+  { inv_bind H. rename a into h. inv_bind H. inversion H; subst p c; clear H. split; [reflexivity|].
+    exists (btake 48 data ++ [] ++ mac_wire a). intros enc cap Hcap.
+    apply serialize_parts; cbn [p_header p_ef p_mac]; try assumption; try reflexivity.
+    - intros w. eapply (proj1 (hdr34_serialize_eq data h d0 3 w Hwf E Hd0 ltac:(lia))).
+    - intros w Hw. symmetry. apply wr_nil_room; assumption. }
+  destruct (_ =? 4) eqn:V4.
+  { inv_bind H. rename a into h.
+    pose proof (hdr34_ok_len _ _ E) as Hlen.
+    unfold HDR34_WIRE_LENGTH in H. apply with_fields_accept in H; try assumption.
+    destruct H as (-> & Hh & tail & Ha & He & Hf & Hm & _). split; [reflexivity|].
+    exists (btake 48 data ++ fields_wire false (untrusted (p_ef p)) ++ tail). intros enc cap Hcap.
+    apply serialize_parts; rewrite ?Hh; try assumption.
+    - intros w. eapply (proj1 (hdr34_serialize_eq data h d0 4 w Hwf E Hd0 ltac:(lia))).
+    - intros w Hw. apply efdata_serialize_eq; assumption. }
+  destruct (_ =? 5) eqn:V5; [|discriminate].
+  inv_bind H. rename a into h. pose proof (hdr5_ok_len _ _ E) as Hlen.
+  inv_bind H. destruct a as [p' c'|p']; [|discriminate].
+  assert (p' = p /\ c' = c) as [-> ->].
+  { destruct (draft_id p'); [|discriminate]. destruct (bytes_eqb _ _); [|discriminate]. inversion H; split; reflexivity. }
+  unfold HDR5_WIRE_LENGTH in E0. apply with_fields_accept in E0; try assumption.
+  destruct E0 as (-> & Hh & tail & Ha & He & Hf & Hm & _). split; [reflexivity|].
+  exists (hdr5_wire data h ++ fields_wire true (untrusted (p_ef p)) ++ tail). intros enc cap Hcap.
+  apply serialize_parts; rewrite ?Hh; try assumption.
+  - intros w. eapply (proj1 (hdr5_serialize_eq data h w Hwf E)).
+  - intros w Hw. apply efdata_serialize_eq; assumption.
+Qed.
